@@ -691,7 +691,7 @@ pub fn run(ctx: &mut Ctx) {
                 Err(e) => Err(format!("emitted {text:?}, reading fails: {}", e.to_string().lines().next().unwrap_or(""))),
             }
         }
-        // F75 (open): enum variants with a payload inside flow collections
+        // F75 (fixed): enum variants with a payload inside flow collections
         for e in [E::New("v".into()), E::T(1, 2), E::St { x: 1 }] {
             ctx.direct_evaluations += 3;
             let checks = [
@@ -701,7 +701,7 @@ pub fn run(ctx: &mut Ctx) {
             ];
             for (i, c) in checks.iter().enumerate() {
                 if let Err(m) = c {
-                    ctx.fail("F75:enum-payload-in-flow-collection", format!("{e:?} in flow position {i}: {m}"), json!({"kind": "flow_variant", "value": format!("{e:?}"), "position": i}));
+                    ctx.fail("enum-payload-in-flow-collection", format!("{e:?} in flow position {i}: {m}"), json!({"kind": "flow_variant", "value": format!("{e:?}"), "position": i}));
                 }
             }
         }
